@@ -20,7 +20,13 @@ def mask(w):
 
 
 class VerilogSim:
-    def __init__(self, text, data_files=None):
+    def __init__(self, text, data_files=None, cells=None):
+        # cells: {cell name: (input port widths {name: (width, signed)}, output port widths {name: width},
+        #                     fn(params {name: (text, kind, ast)}, inputs {name: int}) -> {output name: int})}
+        # An instance of a registered cell is executed as combinational logic; its input connections are evaluated as continuous
+        # assignments to the declared port (IEEE 1364 12.3.9: context = max(port, expression), truncated to the port).
+        self.cells = cells or {}
+        self.instances_executed = 0
         self.m = parse(text)
         self.decl = self.m["decls"]
         self.mems = {}
@@ -325,6 +331,28 @@ class VerilogSim:
                 if old != v:
                     self.store(lhs, v)
                     changed = True
+            for inst in self.m["instances"]:
+                cell = self.cells.get(inst["cell"]) if inst.get("structured") else None
+                if cell is None:
+                    continue
+                in_w, out_w, fn = cell
+                conn = dict(inst["ports"])
+                ins = {}
+                for pn, (w, sg) in in_w.items():
+                    if pn not in conn or conn[pn] is None:
+                        raise RuntimeError("vsim: instance %s: input port %s is not connected" % (inst["name"], pn))
+                    v = self.eval_to(conn[pn], w) & mask(w)
+                    ins[pn] = v - (1 << w) if sg and v >> (w - 1) else v
+                outs = fn({n: (txt, kind, ast) for n, txt, kind, ast in inst["params"]}, ins)
+                for pn, w in out_w.items():
+                    if pn not in conn or conn[pn] is None:
+                        raise RuntimeError("vsim: instance %s: output port %s is not connected" % (inst["name"], pn))
+                    lhs = conn[pn]
+                    v = outs[pn] & mask(w) & mask(self.lhs_width(lhs))
+                    if self.read_lhs(lhs) != v:
+                        self.store(lhs, v)
+                        changed = True
+                self.instances_executed += 1
             for block in self.m["combs"]:
                 nbas = []
                 self.exec_block(block, nbas)
